@@ -131,6 +131,13 @@ func fileTreeRecursive(
 			}
 			return fileShardMeta{}, err
 		}
+		if leaf == nil {
+			// no chunk and no error: the splitter is at the end of its input (the size
+			// splitters say so when the source stops, with io.ErrUnexpectedEOF, exactly on
+			// a chunk boundary). The reference importer reads it the same way; it is not
+			// an empty block to store.
+			return fileShardMeta{}, nil
+		}
 		node := basicnode.NewBytes(leaf)
 		l, sz, err := sizedStore(ls, leafLinkProto, node)
 		if err != nil {
